@@ -28,6 +28,10 @@ ALL = ["C%02d" % i for i in range(1, 21)]
 
 
 def main():
+    import glob
+    for extra in sorted(glob.glob(os.path.join(ROOT, "manifest.d", "*.json"))):
+        d = json.load(open(extra))
+        CHECKS[d["property_id"]] = d
     checks = []
     for pid in ALL:
         if pid not in CHECKS:
